@@ -629,7 +629,7 @@ func classifyExitFailure(r *Runner, s *Snap, pk PosKey, bal math.Int, res TxResu
 	if cause, _ := c5.classify("undelegate", res, s, pk.Val, pk.Denom, bal.BigInt()); cause != "" {
 		return cause
 	}
-	if (strings.Contains(msg, "insufficient delegation shares") || strings.Contains(msg, "insufficient tokens")) && emulateUndelegateRefusal(s, pk, bal) {
+	if (res.IsErr("staking", 22, "insufficient delegation shares") || res.IsErr("alliance", 21, "insufficient tokens")) && emulateUndelegateRefusal(s, pk, bal) {
 		if bal.Equal(math.OneInt()) && ratInt(bal).Cmp(s.Value(pk)) > 0 {
 			return "rounder-balance"
 		}
